@@ -150,6 +150,62 @@ def fresh_family(run, rng, n):
     return len(progs)
 
 
+def deep_copy_family(run, rng, n):
+    """Implementation only: +array is a DEEP copy - also of a structure in which one sub-array occurs several times (directly, in different
+    branches, at different depths).  Every array reachable from the copy is changed in place: the original prints what it printed before;
+    then every array the original was built from is changed: the copy prints what it printed after its own change."""
+    hops = V.build_harness("h_ops", "plain")
+    progs = []
+    for _ in range(n):
+        nleaf = rng.randint(1, 3)
+        defs = []
+        names = []
+        for i in range(nleaf):
+            defs.append("l%d = [%s];" % (i, ",".join(str(rng.randint(0, 9)) for _ in range(rng.randint(0, 3)))))
+            names.append("l%d" % i)
+        # arrays built from the leaves (and from each other), each name may be used any number of times
+        for j in range(rng.randint(0, 2)):
+            els = [rng.choice(names + [str(rng.randint(0, 9))]) for _ in range(rng.randint(1, 3))]
+            defs.append("m%d = [%s];" % (j, ",".join(els)))
+            names.append("m%d" % j)
+        def struct(d):
+            els = []
+            for _ in range(rng.randint(1, 4)):
+                r = rng.random()
+                if r < 0.55: els.append(rng.choice(names))
+                elif r < 0.75 and d < 3: els.append(struct(d + 1))
+                else: els.append(str(rng.randint(0, 9)))
+            return "[" + ",".join(els) + "]"
+        top = struct(0)
+        if not any(nm in top for nm in names):
+            top = "[%s,%s]" % (names[0], names[0])
+        body = ("%s a = %s; b = +a; s = str a; t = str b; "
+                "fnc = { private _y = _this; { if (_x isEqualType []) then { _x call fnc } } forEach _y; _y pushBack \"m\" }; "
+                "b call fnc; s2 = str a; u = str b; %s u2 = str b; [s, t, s2, u, u2]"
+                % (" ".join(defs), top, " ".join("%s pushBack 99; %s set [0, 98];" % (nm, nm) for nm in names)))
+        progs.append((body, top))
+    rc, out, err = V.run_lines_parallel([hops], ["X\t-\t%s" % V.hx(p_[0]) for p_ in progs], timeout=3000)
+    for (p_, top), o in zip(progs, out):
+        f = o.split(";")
+        rep = {"kind": "deep-copy", "sqf": p_, "impl": o[:900]}
+        if len(f) != 3 or f[2] == "NONE" or f[0] != "-1":
+            run.violation("a small array program could not be run and printed: " + o[:120], rep)
+            continue
+        val = V.unhx(f[2]).decode("latin-1")
+        parts = split_top(val)
+        if parts is None or len(parts) != 5:
+            run.violation("unexpected result shape: " + val[:120], rep)
+            continue
+        s_, t_, s2, u, u2 = parts
+        if s_ != t_:
+            run.violation("`+a` of %s does not print like a (%s vs %s)" % (top, t_[:80], s_[:80]), rep)
+        elif s2 != s_:
+            run.violation("`+a` is not a deep copy: a = %s; changing every array of the copy in place changed a too (%s -> %s)" % (top, s_[:80], s2[:80]), rep)
+        elif u2 != u:
+            run.violation("`+a` is not a deep copy: a = %s; changing the arrays a was built from changed the copy too (%s -> %s)" % (top, u[:80], u2[:80]), rep)
+    return len(progs)
+
+
 SHARED_ROUTES = [
     ("param default (index missing)", "p = [] param [0, d];"),
     ("param default (wrong type)", "p = [5] param [0, d, [[]]];"),
@@ -215,18 +271,49 @@ def shared_family(run, rng, n):
     return len(progs)
 
 
+def read_max_size():
+    """d_array::max_size(): from the text of d_array.h when it is a literal or a named constant there, otherwise from the compiler
+    (a probe translation unit whose assembly holds the value) - a refactoring of how the constant is written changes nothing."""
+    import re, subprocess, tempfile
+    try:
+        src = open(os.path.join(V.REPO, "src", "runtime", "d_array.h")).read()
+        m = re.search(r"max_size\s*\(\s*\)\s*(?:const\s*)?(?:noexcept\s*)?\{\s*return\s+([A-Za-z_0-9:']+)\s*;", src)
+        if m:
+            tok = m.group(1).replace("'", "")
+            if re.fullmatch(r"\d+[uUlLzZ]*", tok):
+                return int(re.match(r"\d+", tok).group(0))
+            d = re.search(r"\b%s\s*(?:=|\{)\s*([0-9']+)" % re.escape(tok.split("::")[-1]), src)
+            if d:
+                return int(d.group(1).replace("'", ""))
+    except Exception:
+        pass
+    try:
+        with tempfile.TemporaryDirectory() as td:
+            cpp = os.path.join(td, "probe.cpp")
+            open(cpp, "w").write('#include "runtime/d_array.h"\nextern const unsigned long long verif_probe_max_size;\n'
+                                 'const unsigned long long verif_probe_max_size = sqf::types::d_array::max_size();\n')
+            r = subprocess.run(["g++", "-std=c++17", "-O1", "-w", "-S", "-I", os.path.join(V.REPO, "src"), "-o", os.path.join(td, "probe.s"), cpp],
+                               stdout=subprocess.PIPE, stderr=subprocess.PIPE, timeout=300)
+            if r.returncode == 0:
+                asm = open(os.path.join(td, "probe.s")).read()
+                m = re.search(r"verif_probe_max_size:\s*\n\s*\.quad\s+(\d+)", asm)
+                if m:
+                    return int(m.group(1))
+    except Exception:
+        pass
+    return None
+
+
 def size_limit_family(run):
     """Implementation only: the size an array may reach (d_array::max_size(), read from the source) at set and resize. A set at index i
     needs i + 1 elements, a resize to n needs n: what fits is carried out (the array grows with nils, every name of it sees the growth),
     what does not fit is rejected with a diagnostic and leaves the array as it was. The array is looked at in a second run on the same
     instance (a rejected statement may end its script)."""
     import re
-    try:
-        src = open(os.path.join(V.REPO, "src", "runtime", "d_array.h")).read()
-        mx = int(re.search(r"max_size\s*\(\s*\)\s*(?:const\s*)?(?:noexcept\s*)?\{\s*return\s+(\d+)", src).group(1))
-    except Exception as e:
-        run.violation("the array size limit d_array::max_size() is no longer readable from src/runtime/d_array.h", {"broken": "tie of the size-limit family: " + str(e)},
-                      found_input=False)
+    mx = read_max_size()
+    if mx is None:
+        run.violation("the array size limit d_array::max_size() can no longer be determined (neither from src/runtime/d_array.h nor by compiling a probe against it)",
+                      {"broken": "tie of the size-limit family"}, found_input=False)
         return 0
     if not (1000 <= mx <= 20000000):
         return 0        # a limit this family cannot allocate its way to (or a trivial one): nothing to say
@@ -372,6 +459,7 @@ def main(replay=None):
     kinds["fresh-results"] = fresh_family(run, rng, 1500 if thorough else 200)
     kinds["shared-handover"] = shared_family(run, rng, 1200 if thorough else 160)
     kinds["size-limit"] = size_limit_family(run)
+    kinds["deep-copy"] = deep_copy_family(run, rng, 2000 if thorough else 300)
 
     for p in problems:
         run.violation("proof obligation not discharged: " + p, {"broken": p, "theorems": run.cov["theorems"]}, found_input=False)
